@@ -552,7 +552,24 @@ class CompilerPassGenerateCode(CompilerPass):
             if isinstance(last_node, nodes.Expr):
                 last_node = last_node.value
 
-            if isinstance(last_node, nodes.Call):
+            # the jump replaces both the call and the return of this function: it is only
+            # valid when nothing else needs the return address, i.e. the body makes no other
+            # call (ra would have to be saved and restored before the jump) and has no early
+            # return (which needs the 'j ra' behind the end label)
+            other_calls = [
+                call
+                for call in node.nodes_of_class(nodes.Call)
+                if call is not last_node
+                and isinstance(call.func, (nodes.Name, nodes.Attribute))
+                and get_function_name(call.func) in self.data.functions
+            ]
+            has_early_return = any(True for _ in node.nodes_of_class(nodes.Return))
+
+            if (
+                isinstance(last_node, nodes.Call)
+                and not other_calls
+                and not has_early_return
+            ):
                 ndata = last_node._ndata
                 sd = self.data.get_sym_data(last_node.func)
                 if sd.is_read != 1 or not self.data.options.inline_functions:
